@@ -460,7 +460,7 @@ class AModel(Model):
             st.emit('CHDIR', tuple(args[:1]), line)
             return [R(st, NONE)]
         # ---- sqlite / sqlalchemy
-        if f[0] == 'attr' and f[2] in ('execute', 'executescript') and on_self_store(f[1]):
+        if f[0] == 'attr' and f[2] in ('execute', 'executescript', 'executemany') and on_self_store(f[1]):
             stmt = args[0] if args else NONE
             kind, where = sql_kind(stmt)
             v = ('ev', 'sqlres', self.newid()) if kind != 'select' else ('ev', 'read', self.newid())
